@@ -7,6 +7,9 @@ package main
 //           (0, 1, q-1, q, q+1, 2q, p, 2^255, 2^256, 2^4100, ff…ff, value<<8, value>>8, leading zero byte, +1,
 //           emptied); the first, second and last element of every list field (length prefixes live there);
 //           the proof-heavy ECDSA protocols also with the verifier pool limited to one worker
+//   arity — the deviator commits to k values of its choosing (small numbers or coordinates of valid points) and later
+//           opens that commitment correctly: a hash-correct de-commitment of the wrong arity, for every
+//           commitment / de-commitment pair of every protocol
 //   junk  — from a chosen event on, parties receive random bytes, bit-flipped / truncated / extended genuine
 //           messages, genuine messages under another or an out-of-range sender, with the broadcast flag flipped,
 //           and messages of another protocol
@@ -18,7 +21,11 @@ import (
 	"strings"
 	"time"
 
+	"github.com/bnb-chain/tss-lib/v2/crypto"
+	"github.com/bnb-chain/tss-lib/v2/crypto/commitments"
 	"github.com/bnb-chain/tss-lib/v2/tss"
+	"google.golang.org/protobuf/proto"
+	"google.golang.org/protobuf/reflect/protoreflect"
 )
 
 // netConcurrency > 0: every party built by the net builders is limited to that many verifier goroutines
@@ -301,6 +308,126 @@ func runJunk(p c05Proto, s injSpec) injResult {
 	return res
 }
 
+// commitment / de-commitment pairs of a protocol, discovered from a reference run: the i-th message type with a
+// bytes field "…commitment" pairs with the i-th type with a list field "de_commitment" / "v_decommitment"
+type cdPair struct{ cType, cField, dType, dField string }
+
+func commitPairs(ref *Net) []cdPair {
+	var cs, ds [][2]string
+	seen := map[string]bool{}
+	for _, d := range ref.Delivered {
+		t := shortType(d.Msg.Type())
+		if seen[t] {
+			continue
+		}
+		seen[t] = true
+		for _, fd := range byteFields(d.Msg.(tss.ParsedMessage).Content()) {
+			n := string(fd.Name())
+			switch {
+			case fd.IsList() && (n == "de_commitment" || n == "v_decommitment"):
+				ds = append(ds, [2]string{t, n})
+			case !fd.IsList() && strings.HasSuffix(n, "commitment"):
+				cs = append(cs, [2]string{t, n})
+			}
+		}
+	}
+	var out []cdPair
+	for i := 0; i < len(cs) && i < len(ds); i++ {
+		out = append(out, cdPair{cs[i][0], cs[i][1], ds[i][0], ds[i][1]})
+	}
+	return out
+}
+
+// one run in which the deviator commits to `s.Elem` values of its choosing (small numbers, or the coordinates of valid
+// points) and later opens that commitment correctly: a hash-correct de-commitment of the wrong arity
+func runCommitArity(p c05Proto, s injSpec) injResult {
+	rng := rand.New(rand.NewSource(s.Seed))
+	res := injResult{Spec: s}
+	pairs := commitPairs(refRunOf(p))
+	var pi int
+	fmt.Sscan(s.Field, &pi)
+	if pi >= len(pairs) {
+		return res
+	}
+	pr := pairs[pi]
+	ec := tss.S256()
+	if strings.HasPrefix(p.name, "eddsa") {
+		ec = tss.Edwards()
+	}
+	vals := make([]*big.Int, s.Elem)
+	for i := range vals {
+		if s.Seed%2 == 0 {
+			vals[i] = big.NewInt(int64(3 + i))
+		} else {
+			pt := crypto.ScalarBaseMult(ec, big.NewInt(int64(2+i/2)))
+			vals[i] = pt.X()
+			if i%2 == 1 {
+				vals[i] = pt.Y()
+			}
+		}
+	}
+	cmt := commitments.NewHashCommitment(rng, vals...)
+	net := p.build(rand.New(rand.NewSource(11)))
+	net.StopOnError = true
+	setBytes := func(m tss.Message, field string, single []byte, list [][]byte) tss.Message {
+		content := proto.Clone(m.(tss.ParsedMessage).Content()).(tss.MessageContent)
+		refl := content.ProtoReflect()
+		fd := refl.Descriptor().Fields().ByName(protoreflect.Name(field))
+		if fd == nil {
+			return m
+		}
+		if fd.IsList() {
+			l := refl.Mutable(fd).List()
+			l.Truncate(0)
+			for _, b := range list {
+				l.Append(protoreflect.ValueOfBytes(b))
+			}
+		} else {
+			refl.Set(fd, protoreflect.ValueOfBytes(single))
+		}
+		return rewrap(m, content)
+	}
+	net.Tamper = func(from int, m tss.Message) []tss.Message {
+		if from != s.Dev {
+			return []tss.Message{m}
+		}
+		switch shortType(m.Type()) {
+		case pr.cType:
+			res.Applied = true
+			return []tss.Message{setBytes(m, pr.cField, cmt.C.Bytes(), nil)}
+		case pr.dType:
+			var d [][]byte
+			for _, v := range cmt.D {
+				d = append(d, v.Bytes())
+			}
+			return []tss.Message{setBytes(m, pr.dField, nil, d)}
+		}
+		return []tss.Message{m}
+	}
+	done := make(chan bool, 1)
+	go func() {
+		net.Run(rand.New(rand.NewSource(1)), Strategy{Name: "fifo", Pick: pickFIFO}, 300000)
+		done <- true
+	}()
+	select {
+	case <-done:
+	case <-time.After(120 * time.Second):
+		res.Stalled = true
+		res.Panics = append(res.Panics, "run did not return within 120 s")
+		return res
+	}
+	res.Panics = net.Panics
+	for i, nd := range net.Nodes {
+		if i != s.Dev && nd.Err != nil {
+			res.Errors = append(res.Errors, nd.Name+": "+errDesc(nd.Err))
+		}
+		if len(nd.Ends) > 0 {
+			res.Outputs++
+		}
+	}
+	return res
+}
+
 func protocolLevelC06(r *Run, rng *rand.Rand, thorough bool) {
 	protos := c06Protos(rng)
 	var all []injSpec
@@ -309,6 +436,33 @@ func protocolLevelC06(r *Run, rng *rand.Rand, thorough bool) {
 		if thorough && len(specs) > 600 {
 			rng.Shuffle(len(specs), func(i, j int) { specs[i], specs[j] = specs[j], specs[i] })
 			specs = specs[:600]
+		}
+		// hash-correct de-commitments of the wrong arity
+		if !strings.Contains(p.name, "@") {
+			probe := p.build(rand.New(rand.NewSource(11)))
+			probe.Run(rand.New(rand.NewSource(1)), Strategy{Name: "fifo", Pick: pickFIFO}, 300000)
+			ks := []int{1, 2, 3, 4}
+			if thorough {
+				ks = []int{1, 2, 3, 4, 5, 6, 7, 8, 10}
+			}
+			heavy := p.name == "ecdsa-keygen" || p.name == "ecdsa-resharing"
+			for pi := range commitPairs(probe) {
+				for _, k := range ks {
+					for v := int64(0); v < 2; v++ {
+						if !thorough && (v == 1 && k%2 == 1 || heavy && (v == 1 || k%2 == 1)) {
+							continue
+						}
+						dev := 0
+						if (k+pi)%2 == 1 {
+							dev = len(probe.Nodes) - 1
+						}
+						if strings.Contains(p.name, "resharing") {
+							dev = (k + pi) % 2 // an old member: the resharing commitments are the old committee's
+						}
+						specs = append(specs, injSpec{Proto: p.name, Dev: dev, Kind: "commit-arity", Field: fmt.Sprint(pi), Elem: k, Seed: rng.Int63()/2*2 + v})
+					}
+				}
+			}
 		}
 		nj := 2
 		if thorough {
@@ -337,6 +491,9 @@ func protocolLevelC06(r *Run, rng *rand.Rand, thorough bool) {
 			site := fmt.Sprintf("%s/%s.%s/%s", s.Proto, s.Type, s.Field, s.Kind)
 			if s.Kind == "junk" {
 				site = s.Proto + "/junk"
+			}
+			if s.Kind == "commit-arity" {
+				site = fmt.Sprintf("%s/commit-pair-%s/arity-%d", s.Proto, s.Field, s.Elem)
 			}
 			r.Dist["protocol-input/"+s.Proto+"/"+strings.SplitN(s.Kind, ":", 2)[0]]++
 			if !ir.Applied {
